@@ -190,8 +190,19 @@ func cmdCheck(prop, tier string) int {
 				needUpTo[o.RetTag] = o.EnsIdx
 			}
 		}
+		// loop invariants are assumed after their loops: when a postcondition or frame of the function is selected, the
+		// obligations that establish and preserve its invariants are selected too
+		anyPost := false
 		for _, o := range os_ {
-			if !selected(o) && !(o.Kind == "ensures" && o.EnsIdx > 0 && o.EnsIdx < needUpTo[o.RetTag]) {
+			if (o.Kind == "ensures" || o.Kind == "frame") && selected(o) {
+				anyPost = true
+			}
+		}
+		isLoopObl := func(o *Obligation) bool {
+			return strings.HasPrefix(o.Kind, "loop") && (strings.HasSuffix(o.Kind, ".init") || strings.HasSuffix(o.Kind, ".pres"))
+		}
+		for _, o := range os_ {
+			if !selected(o) && !(o.Kind == "ensures" && o.EnsIdx > 0 && o.EnsIdx < needUpTo[o.RetTag]) && !(anyPost && isLoopObl(o) && !matchAny(exclude, o.Name)) {
 				continue
 			}
 			obls = append(obls, o)
